@@ -24,7 +24,10 @@ RULE = (
     'printf argument. The production run must agree with the reference in '
     'every position. Built-ins are swept over argument grids against '
     'math.*; [random a b] is drawn 300 times per range (b-a <= 6) and must '
-    'yield exactly the integers a..b. Non-trivial = the tree has >= 2 binary '
+    'yield exactly the integers a..b. Whole-number literals that no float '
+    'can hold (2^53+1 .. 10^40) must keep their exact value as operand, '
+    'macro, variable and argument (modulus, difference from and equality '
+    'with the neighbouring number, sum). Non-trivial = the tree has >= 2 binary '
     'operators and its value differs from the strict left-to-right or the '
     'strict right-to-left evaluation of its operator/operand sequence (so '
     'precedence or associativity matters). Distinct by expression text.')
@@ -576,6 +579,8 @@ def plan(tier, seed_value):
     specs = progbase.plan(ID, tier, seed_value, quick=6400, thorough=240000,
                           extra={'kind': 'expr'})
     specs.append({'kind': 'builtins'})
+    specs.append({'kind': 'big-literals', 'seed': seed_value,
+                  'examples': 3000 if tier == 'thorough' else 150})
     ranges = [(a, a + d) for a in (-3, 0, 1, 10) for d in range(0, 7)]
     ranges += [(1, 3.0), (0.5, 3.5), (-2.0, 1.0), (2, 2.75), (-4.5, -2.0),
                (0.0, 6.0), (1.25, 2.5), (-3, -1.5)]
@@ -585,9 +590,54 @@ def plan(tier, seed_value):
     return specs
 
 
+# ---- whole-number literals are exact, however long ---------------------------------------
+def check_big_literal(acc, n, m, position):
+    """n: a whole number no float can hold; m: a small modulus."""
+    from verif.harness import shared_world
+    world = shared_world('c02-big', POP)
+    forms = {
+        'modulo': ('println {{ {n} % {m} }}', n % m),
+        'difference': ('println {{ {n} - {p} }}', 1),
+        'equal-to-neighbour': ('println {{ {n} == {p} }}', False),
+        'macro': ('define q_big {n} println {{ q_big % {m} }}', n % m),
+        'variable': ('assign q_v {n} println {{ q_v % {m} }}', n % m),
+        'argument': ('println [f1 {n}]', n * 2),
+        'sum': ('println {{ {n} + {m} }}', n + m),
+    }
+    template, want = forms[position]
+    text = printer.to_text(PRELUDE) + '\n' + template.format(
+        n=n, m=m, p=n - 1)
+    del world.trace[:]
+    result = world.run(text)
+    outs = [e[1] for e in result.trace if e[0] == 'out']
+    acc.case(key=(n, m, position), nontrivial=True,
+             labels=['big-literal', 'big:' + position],
+             sample={'text': template.format(n=n, m=m, p=n - 1), 'want': want}
+             if len(acc.samples) < 2 else None)
+    case = {'kind': 'big-literal', 'n': str(n), 'm': m, 'position': position}
+    if not result.compiled or result.aborted or len(outs) != 1:
+        acc.fail('big-literal:did-not-run', '{} did not run: {} {}'.format(
+            template.format(n=n, m=m, p=n - 1), result.errors.strip()
+            if not result.compiled else '', result.aborted), case)
+    elif outs[0] != want or isinstance(outs[0], bool) != isinstance(
+            want, bool):
+        acc.fail('big-literal:' + position,
+                 '{} printed {!r}, the arithmetic value is {!r}'.format(
+                     template.format(n=n, m=m, p=n - 1), outs[0], want), case)
+
+
 def run_shard(spec):
     acc = Acc()
-    if spec['kind'] == 'builtins':
+    if spec['kind'] == 'big-literals':
+        @seed(spec['seed'])
+        @progbase.hyp_settings(spec['examples'])
+        @given(st.integers(2 ** 53 + 1, 10 ** 40), st.integers(2, 1000),
+               st.sampled_from(['modulo', 'difference', 'equal-to-neighbour',
+                                'macro', 'variable', 'argument', 'sum']))
+        def run_big(n, m, position):
+            check_big_literal(acc, n, m, position)
+        run_big()
+    elif spec['kind'] == 'builtins':
         run_builtins(acc)
     elif spec['kind'] == 'random':
         run_random(acc, spec['seed'], [tuple(r) for r in spec['ranges']])
@@ -605,6 +655,8 @@ def replay(case):
     acc = Acc()
     if case['kind'] == 'builtin':
         run_builtins(acc)
+    elif case['kind'] == 'big-literal':
+        check_big_literal(acc, int(case['n']), case['m'], case['position'])
     elif case['kind'] == 'random':
         run_random(acc, case['seed'], [(case['low'], case['high'])])
     else:
